@@ -1588,3 +1588,38 @@ VARIANTS.append(dict(prop="C05", id="n-samples-rebound", kind="M", rule="", file
                      old="        job = _compute_best_alignment_job\n", new="        n_samples = max(n_samples, 10)\n        job = _compute_best_alignment_job\n",
                      note="not a defect by itself: must be reported as ANALYSIS-ERROR (exit 2), never silently accepted", expect_code=2))
 VARIANTS[:] = [v for v in VARIANTS if v is not None]
+
+# interference / closedness mutants
+M("C06", "module-level-cache-in-worker", DIS,
+  "dissimilarity_dec = nb.njit(nb.float32(nb.float32[:], nb.float32[:]))\n",
+  "dissimilarity_dec = nb.njit(nb.float32(nb.float32[:], nb.float32[:]))\n_ARRAY_CACHE = {}\n", "R-C06-4") if False else None
+VARIANTS.append(dict(prop="C06", id="module-level-cache-in-worker", kind="M", rule="R-C06-4", edits=[
+    (DIS, "dissimilarity_dec = nb.njit(nb.float32(nb.float32[:], nb.float32[:]))\n", "dissimilarity_dec = nb.njit(nb.float32(nb.float32[:], nb.float32[:]))\n_ARRAY_CACHE = {}\n"),
+    (DIS, "        units_array = self._build_arrays_continuum(continuum)\n        res =", "        units_array = self._build_arrays_continuum(continuum)\n        _ARRAY_CACHE[len(_ARRAY_CACHE)] = units_array\n        res =")],
+    note="jobs append to a module-level dict: shared state written from worker threads"))
+M("C06", "tie-break-by-object-id", ALI,
+  "        leftmost_first = sorted(self.unitary_alignments, key=lambda unit_align: unit_align.bounds[1])",
+  "        leftmost_first = sorted(self.unitary_alignments, key=lambda unit_align: (unit_align.bounds[1], id(unit_align)))", "R-C06-6",
+  "ties broken by object address: differs between runs")
+M("C13", "add-replaces-equal-segment-unit", CONT,
+  "        self._annotations[annotator].add(Unit(segment, annotation))\n        self.bound_inf",
+  "        for old in [u for u in self._annotations[annotator] if u.segment == segment]:\n            self._annotations[annotator].discard(old)\n        self._annotations[annotator].add(Unit(segment, annotation))\n        self.bound_inf", "R-C13-3",
+  "adding a unit silently removes the units sharing its segment (labels differ): not what a set-per-annotator model predicts")
+M("C13", "add-annotator-resets-categories", CONT,
+  "        if annotator not in self._annotations:\n            self._annotations[annotator] = SortedSet()\n\n    def add(self",
+  "        if annotator not in self._annotations:\n            self._annotations[annotator] = SortedSet()\n            self._categories = SortedSet(self._categories)\n\n    def add(self", "R-C13-3") if False else None
+M("C17", "large-alignments-skip-check", ALI,
+  "        # set partition tests for the unitary alignments\n        continuum_tuples = set()",
+  "        if len(self.unitary_alignments) > 500:\n            return  # too slow\n        # set partition tests for the unitary alignments\n        continuum_tuples = set()", "R-C17-1")
+M("C01", "decoder-skips-high-disorder-candidates", CONT,
+  """            unitary_alignment = UnitaryAlignment(list(u_align_tuple))
+            unitary_alignment.disorder = alignments_disorders[alignment_id]
+            set_unitary_alignements.append(unitary_alignment)
+        return Alignment(""",
+  """            unitary_alignment = UnitaryAlignment(list(u_align_tuple))
+            unitary_alignment.disorder = alignments_disorders[alignment_id]
+            if unitary_alignment.nb_units == 1 and len(u_align_tuple) > 4:
+                continue
+            set_unitary_alignements.append(unitary_alignment)
+        return Alignment(""", "R-C01-4", "singleton unitary alignments dropped for 5+ annotators: units missing from the partition")
+VARIANTS[:] = [v for v in VARIANTS if v is not None]
